@@ -3,12 +3,12 @@ kernel (slots, coordinates, grid geometry, pixel positions) and what each render
 per-layer depth reduction, thickness scaling, NaN mask) are read off the fold and compared with the specification."""
 from __future__ import annotations
 
-from ..models import ModelEval, PyObj, Marker, Raised
+from ..models import ModelEval, PyObj, Raised
 from ..peval import Model, Unsupported, ProgramRaised
 from ..poly import Poly
 from ..source import AnalysisError
 from ..symnp import Sym, Sc, Stack, np_hooks, ext_default, origin_of
-from .core_models import RawTok, ArrTok, OpTok, UnitTok, core_hooks, make_vector, vector_components, VECTOR_Q, tok_origin
+from .core_models import RawTok, ArrTok, OpTok, UnitTok, core_hooks, make_vector, VECTOR_Q
 from .layer_folds import LAYER_Q
 
 ERR = (Unsupported, AnalysisError)
